@@ -72,10 +72,8 @@ class CartesianGrid(Grid):
         Grid
             Itself to allow for chaining these transformations.
         '''
-        if np.isscalar(scale):
-            self.weights *= np.abs(scale)**self.ndim
-        else:
-            self.weights *= np.prod(np.abs(scale))
+        # Broadcast first, so that a scalar, a 0-d array and a one-element array all scale every axis.
+        self.weights *= np.prod(np.abs(np.ones(self.ndim) * scale))
 
         self.coords *= scale
 
